@@ -174,6 +174,72 @@ def check_range_partition(ctx, rid, unit, qn, f, data, site):
     return False
 
 
+def _gather_meaning(expr, A, iv):
+    """meaning of a gather expression built from the matrix A and ONE index vector iv: which entry of A lands at output position (x0, x1)?
+    'block' = A[iv[x0], iv[x1]], 'transposed' = A[iv[x1], iv[x0]], None = anything else / not understood.
+    Tracked as (row argument, column argument) of A, each ('raw'|'idx', output axis)."""
+    def ev(e):
+        if isinstance(e, ast.Name) and e.id == A:
+            return (("raw", 0), ("raw", 1))
+        if isinstance(e, ast.Attribute) and e.attr == "T":
+            r = ev(e.value)
+            return None if r is None else tuple((k, 1 - ax) for k, ax in r)
+        if isinstance(e, ast.Call) and (call_name(e) or "") in ("np.transpose", "numpy.transpose") and len(e.args) == 1 and not e.keywords:
+            r = ev(e.args[0])
+            return None if r is None else tuple((k, 1 - ax) for k, ax in r)
+        if isinstance(e, ast.Subscript):
+            r = ev(e.value)
+            if r is None:
+                return None
+            sl = e.slice
+            items = list(sl.elts) if isinstance(sl, ast.Tuple) else [sl]
+
+            def kind(x):
+                t = str(norm_src(x))
+                if t == ":":
+                    return "all"
+                if t == iv:
+                    return "vec"
+                if t in (f"{iv}[:, None]", f"{iv}[:, np.newaxis]", f"{iv}.reshape((-1, 1))", f"{iv}.reshape(-1, 1)"):
+                    return "col"
+                if t in (f"{iv}[None, :]", f"{iv}[np.newaxis, :]", f"{iv}[None]", f"{iv}.reshape((1, -1))"):
+                    return "row"
+                return None
+            if len(items) == 1 and isinstance(items[0], ast.Call) and (call_name(items[0]) or "") in ("np.ix_", "numpy.ix_") and [str(norm_src(a)) for a in items[0].args] == [iv, iv]:
+                ks = ["col", "row"]
+            else:
+                ks = [kind(x) for x in items]
+            if None in ks or len(ks) > 2:
+                return None
+            if len(ks) == 1:
+                ks = ks + ["all"]
+
+            def apply(r, ax, to_axis):
+                # the raw output axis `ax` of the current value is gathered by iv and becomes output axis `to_axis`
+                return tuple(("idx", to_axis) if (k, a) == ("raw", ax) else (k, a) for k, a in r)
+            if ks == ["vec", "all"] or ks == ["col", "all"]:
+                return apply(r, 0, 0)
+            if ks == ["all", "vec"] or ks == ["all", "row"]:
+                return apply(r, 1, 1)
+            if ks in (["col", "vec"], ["col", "row"]):
+                return apply(apply(r, 0, 0), 1, 1)
+            if ks in (["vec", "col"], ["row", "col"]):
+                # first index varies along the LAST output axis, second along the first: out[x0, x1] = E[iv[x1], iv[x0]]
+                r2 = tuple(("idx", 1) if (k, a) == ("raw", 0) else (("idx", 0) if (k, a) == ("raw", 1) else (k, a)) for k, a in r)
+                return r2
+            return None
+        return None
+    try:
+        r = ev(expr)
+    except Exception:
+        return None
+    if r == (("idx", 0), ("idx", 1)):
+        return "block"
+    if r == (("idx", 1), ("idx", 0)):
+        return "transposed"
+    return None
+
+
 def check_array_split_partition(ctx, rid, unit, qn, f, data, site):
     """third idiom: for idx in np.array_split(perm, nb). array_split always partitions its argument into nb nearly equal parts, so the batches are
     disjoint and cover the data; they hold at most batch_size rows iff nb >= len/batch_size, i.e. nb is the CEILING of len/batch_size."""
@@ -289,8 +355,14 @@ def run(pm, ctx):
                     f"affinity_matrix[:, {iv}][{iv}, :]", f"affinity_matrix[{iv}[:, None], {iv}]", f"affinity_matrix[{iv}[:, np.newaxis], {iv}]",
                     f"affinity_matrix[{iv}.reshape((-1, 1)), {iv}]", f"affinity_matrix[{iv}[:, None], {iv}[None, :]]"}
             asrc = norm_src(arr[0].value) if len(arr) == 1 else None
-            if asrc in good:
-                pass
+            gm = _gather_meaning(arr[0].value, "affinity_matrix", iv) if len(arr) == 1 and iv else None
+            if gm == "block" or asrc in good:
+                asrc_ok = True
+                if asrc not in good:
+                    good = good | {asrc}
+            elif gm == "transposed":
+                probs.append(f"the affinity block `{asrc}` is the TRANSPOSE of the batch's block (entry (p, q) is A[idx[q], idx[p]]): wrong for every non-symmetric affinity "
+                             f"(a precomputed or callable one)")
             elif asrc in (f"affinity_matrix[{iv}, {iv}[:, None]]", f"affinity_matrix[{iv}, {iv}[:, np.newaxis]]", f"affinity_matrix[{iv}[None, :], {iv}[:, None]]",
                           f"affinity_matrix[{iv}][:, {iv}].T", f"affinity_matrix.T[{iv}][:, {iv}]"):
                 probs.append(f"the affinity block `{asrc}` is the TRANSPOSE of the batch's block (entry (p, q) is A[idx[q], idx[p]]): wrong for every non-symmetric affinity "
